@@ -3,12 +3,13 @@
 SPECIFICATION Spec
 CONSTANTS Names <- NamesAll
           Types <- TypesAll
-          Bodies = {"x"}
+          Bodies <- BodyX
+          Readers <- ReadPlain
           Modes = {0}
           Mtimes <- NoMeta
           MaxNodes = 3
           MaxDepth = 3
           MinNodes = 1
           Devs = {}
-INVARIANTS TypeOK RoundTrip ShallowWalk EscapedSafe Emit
+INVARIANTS TypeOK RoundTrip StreamFinite ShallowWalk EscapedSafe Emit
 CHECK_DEADLOCK FALSE
